@@ -84,7 +84,9 @@ func multiManifest(name string) string {
 var multiFiles = map[string]string{
 	"manifest.yaml": multiManifest("app"), "a.yaml": pkgw.WidgetYAML("Widget", "root-a", "p1", "1", nil),
 	"components/frontend/manifest.yaml": multiManifest("frontend"), "components/frontend/f.yaml": pkgw.WidgetYAML("Widget", "frontend-f", "p1", "1", nil),
-	"components/backend/manifest.yaml": multiManifest("backend"), "components/backend/b.yaml.gotmpl": pkgw.WidgetYAML("Widget", "backend-b", "p2", "{{ default 3 .config.x }}", nil),
+	"components/backend/manifest.yaml": multiManifest("backend"), "components/backend/b.yaml.gotmpl": pkgw.WidgetYAML("Widget", "backend-b", "p2", `{{ if hasKey .config "x" }}{{ .config.x }}{{ else }}3{{ end }}`, nil),
+	// a component whose name is a prefix of a sibling's
+	"components/front/manifest.yaml": multiManifest("front"), "components/front/x.yaml": pkgw.WidgetYAML("Widget", "front-x", "p1", "1", nil),
 }
 
 var images = map[string]imageClass{
@@ -286,7 +288,19 @@ func freshRender(sc scenario, c map[string]any) (corev1alpha1.ObjectSetTemplateS
 		tctx.Package.Annotations = nil
 	}
 	comp, _ := c["spec"].(map[string]any)["component"].(string)
-	r := pkgw.Render(images[image].Files, comp, tctx)
+	files := images[image].Files
+	if comp != "" {
+		// the reference selects the component's files itself (everything below components/<name>/,
+		// paths relative to that folder) and renders them as a package of their own
+		sub := map[string]string{}
+		for p, v := range files {
+			if rest, ok := strings.CutPrefix(p, "components/"+comp+"/"); ok {
+				sub[rest] = v
+			}
+		}
+		files = sub
+	}
+	r := pkgw.Render(files, "", tctx)
 	return r.Spec, r.Err
 }
 
@@ -400,7 +414,13 @@ func check(sc scenario) func(before *world.World, ev world.Event, pass *world.Pa
 			}
 			return out
 		}
-		// valid and changed: after a completed pass the deployment equals a fresh render
+		// valid and changed: an undisturbed pass completes (judged in the component system only,
+		// whose every image x config x component combination renders: elsewhere a valid package may
+		// still have a template that fails for a given configuration) ...
+		if len(sc.Components) > 0 && pass.Err != nil && !pass.Crashed && !faulted && !strings.HasPrefix(ev.Name, "race:") && !strings.HasPrefix(ev.Name, "conflict:") {
+			bad("valid-package-pass-failed", "the package is valid and nothing disturbed the pass, but it failed: %v", pass.Err)
+		}
+		// ... and after a completed pass the deployment equals a fresh render
 		if pass.Err == nil && !pass.Crashed && !faulted {
 			od := after.S.Objs[odKey]
 			if od == nil {
@@ -672,7 +692,7 @@ func scenarios(quick bool) []scenario {
 		{Env: "k8s-1.27", Images: []string{"v1", "v2"}, Confs: []string{"none"}, Edits: 1, Pauses: 1, StartPaused: true},
 		{Env: "k8s-1.27", Images: []string{"v1", "big", "big2", "huge"}, Confs: []string{"none"}, Edits: 2},
 		{Env: "k8s-1.27", Images: []string{"v1", "locked", "dupphase", "dupphase-locked"}, Confs: []string{"none"}, Edits: 2},
-		{Env: "k8s-1.27", Images: []string{"multi"}, Confs: []string{"none", "x1"}, Components: []string{"", "frontend", "backend"}, Edits: 3},
+		{Env: "k8s-1.27", Images: []string{"multi"}, Confs: []string{"none", "x1"}, Components: []string{"", "frontend", "backend", "front"}, Edits: 3},
 	}
 	if !quick {
 		out = append(out,
